@@ -849,16 +849,16 @@ def api_search(ctx, api, mexe, stats, rng, budget):
     return n
 
 
-def boundary_tie(pts, dim, ks):
-    """some sample sees its k-th and (k+1)-th nearest other samples at the same distance, for some k in ks:
-    exactly then the exact k-NN list of that sample is not unique as a set"""
-    N = len(pts)
-    for i in range(N):
-        ds = sorted(sum(abs(pts[i][c] - pts[j][c]) for c in range(dim)) for j in range(N) if j != i)
-        for k in ks:
-            if 1 <= k < len(ds) and ds[k - 1] == ds[k]:
-                return True
-    return False
+def boundary_tie(ctx, mexe, pts, dim, ks):
+    """some sample has a tie at the boundary of its k-NN list for some k in ks (sorted distances ds of the
+    sample: ds[k-1] == ds[k]): decided by the EXTRACTED boundary_free_b (Conn_Spec.v), the function theorem
+    boundary_free_unique is about: boundary free -> the exact lists are unique as sets"""
+    line = "B %d %s %d %d %s" % (len(ks), " ".join(map(str, ks)), dim, len(pts),
+                                 " ".join(str(x) for p in pts for x in p[:dim]))
+    mo = run_model(ctx, mexe, [line])[0]
+    if mo[0] != "B" or len(mo) != len(ks) + 2:
+        raise vlib.BuildError("model driver: unexpected answer %r" % (mo,))
+    return any(b == "0" for b in mo[1:1 + len(ks)])
 
 
 def k_sequence(k, N, upto):
@@ -871,12 +871,13 @@ def k_sequence(k, N, upto):
     return ks
 
 
-def eval_order_pairs_with_ties(ctx, exe, stats, pairs):
+def eval_order_pairs_with_ties(ctx, exe, mexe, stats, pairs):
     """pairs: (k, pts, method) on data that may contain tied distances.  The samples are supplied forwards and
     backwards.  A different number of neighbours is the KNOWN FINDING (signature SIG_TIES) exactly when some
     sample has a tie at the boundary of its k_j-NN list for a k_j the recursion went through (the exact lists
     are then not unique, cc_order_ties_refuted); without such a tie the lists are unique and a difference is a
-    VIOLATION (cc_order_independent needs only uniqueness of the lists)."""
+    VIOLATION (theorems cc_different_k_needs_tie + boundary_free_unique: different numbers of neighbours from two
+    exact searches imply a boundary tie at some k_j <= the smaller result)."""
     lines = []
     for k, pts, m in pairs:
         lines.append(p_line("F", m, 1, k, 1, pts))
@@ -893,7 +894,7 @@ def eval_order_pairs_with_ties(ctx, exe, stats, pairs):
             continue
         N = len(pts)
         case = {"kind": "points_pair", "dim": 1, "pts": pts, "k": k, "method": m, "perm": list(range(N - 1, -1, -1))}
-        if boundary_tie(pts, 1, k_sequence(k, N, min(ka, kb))):
+        if boundary_tie(ctx, mexe, pts, 1, k_sequence(k, N, min(ka, kb))):
             stats["tied_order_dependent"] += 1
             if not any(e.get("kind") == "finding" and e.get("signature") == SIG_TIES for e in ctx._known_db):
                 continue        # not registered as a known finding: counted, never a verdict
@@ -908,7 +909,7 @@ def eval_order_pairs_with_ties(ctx, exe, stats, pairs):
     return len(lines)
 
 
-def probe_tied_order(ctx, exe, stats, rng, quick):
+def probe_tied_order(ctx, exe, mexe, stats, rng, quick):
     """the registered example 0,1,2,3,6 with k = 3 through the three methods, then lattice sets with ties"""
     pts = [(0,), (1,), (2,), (3,), (6,)]
     pairs = [(3, pts, m) for m in (0, 1, 2)]
@@ -916,7 +917,7 @@ def probe_tied_order(ctx, exe, stats, rng, quick):
     rng.shuffle(sets)
     for c in sets[:60 if quick else 600]:
         pairs.append((rng.choice([1, 2, 3]), c, rng.choice([0, 0, 2])))
-    return eval_order_pairs_with_ties(ctx, exe, stats, pairs)
+    return eval_order_pairs_with_ties(ctx, exe, mexe, stats, pairs)
 
 
 def build_or_error(ctx, src, kw):
@@ -1076,7 +1077,7 @@ def run(ctx):
         budget = 60000
     n += search_small_sets(ctx, exe, mexe, stats, budget, rng)
 
-    n += probe_tied_order(ctx, exe, stats, rng, quick)
+    n += probe_tied_order(ctx, exe, mexe, stats, rng, quick)
     ctx.note("t=%.0fs after small lattice sets" % ctx.elapsed())
     # ---- a few malformed graphs, one process each: recorded, never a verdict
     for rows in ([[1], [5]], [[1, 1], [0]], [[2], [0], [7]]):
